@@ -24,13 +24,13 @@ import (
 )
 
 type stmtInliner struct {
-	fset    *token.FileSet
-	pkg     *types.Package
-	info    *types.Info
-	content func(filename string) []byte
-	seq     *int
+	fset     *token.FileSet
+	pkg      *types.Package
+	info     *types.Info
+	content  func(filename string) []byte
+	seq      *int
 	typeArgs map[*types.TypeParam]types.Type // instantiation of the generic callee being inlined (nil otherwise)
-	hoisted bool // the last inlineAt / inlineLit only moved the call in front of its statement (it still exists)
+	hoisted  bool                            // the last inlineAt / inlineLit only moved the call in front of its statement (it still exists)
 }
 
 // inlineAt tries to inline call (inside file) to the function declared by decl. Returns the new content of the caller's file.
@@ -164,12 +164,52 @@ func (si *stmtInliner) inlineCore(file *ast.File, call *ast.CallExpr, sig *types
 			deferList = append(deferList, d)
 		}
 	}
+	// conditional defers (`if vecIdx != nil { f, err := os.Open(…); …; defer f.Close() }`): a defer nested in branches — not in
+	// a loop, not in a function literal — of the same simple call form is replayed under a flag that records whether it was
+	// registered; the receiver is captured at the registration, as the runtime does.
+	flagged := map[*ast.DeferStmt]int{}
+	{
+		var visit func(n ast.Node, top bool)
+		visit = func(n ast.Node, top bool) {
+			ast.Inspect(n, func(m ast.Node) bool {
+				switch x := m.(type) {
+				case *ast.ForStmt, *ast.RangeStmt, *ast.FuncLit:
+					return false
+				case *ast.DeferStmt:
+					if simpleDefers[x] {
+						return false
+					}
+					okArgs := true
+					for _, a := range x.Call.Args {
+						if _, isId := a.(*ast.Ident); !isId {
+							okArgs = false
+						}
+					}
+					okFun := false
+					switch f := x.Call.Fun.(type) {
+					case *ast.Ident:
+						okFun = true
+					case *ast.SelectorExpr:
+						okFun = plainLvalue(f.X) && si.info.TypeOf(f.X) != nil
+					}
+					if okArgs && okFun {
+						flagged[x] = len(flagged)
+						deferList = append(deferList, x)
+					}
+					return false
+				}
+				return true
+			})
+		}
+		visit(decl.Body, true)
+		sort.Slice(deferList, func(i, j int) bool { return deferList[i].Pos() < deferList[j].Pos() })
+	}
 	// callee restrictions
 	bad := ""
 	ast.Inspect(decl.Body, func(n ast.Node) bool {
 		switch x := n.(type) {
 		case *ast.DeferStmt:
-			if !simpleDefers[x] {
+			if _, isFlagged := flagged[x]; !simpleDefers[x] && !isFlagged {
 				bad = "defer"
 			}
 		case *ast.BranchStmt:
@@ -620,10 +660,27 @@ func (si *stmtInliner) inlineCore(file *ast.File, call *ast.CallExpr, sig *types
 		}
 		return string(out)
 	}
+	flagName := func(k int) string { return fmt.Sprintf("deferOn%d%s", k, sfx) }
+	recvName := func(k int) string { return fmt.Sprintf("deferRecv%d%s", k, sfx) }
+	flaggedCall := func(d *ast.DeferStmt) string {
+		k := flagged[d]
+		var args []string
+		for _, a := range d.Call.Args {
+			args = append(args, renamedText(a))
+		}
+		if sel, ok := d.Call.Fun.(*ast.SelectorExpr); ok {
+			return recvName(k) + "." + sel.Sel.Name + "(" + strings.Join(args, ", ") + ")"
+		}
+		return renamedText(d.Call.Fun) + "(" + strings.Join(args, ", ") + ")"
+	}
 	deferredAt := func(pos token.Pos) string {
 		var parts []string
 		for i := len(deferList) - 1; i >= 0; i-- {
 			if deferList[i].End() <= pos {
+				if k, isFlagged := flagged[deferList[i]]; isFlagged {
+					parts = append(parts, "if "+flagName(k)+" { "+flaggedCall(deferList[i])+" }; ")
+					continue
+				}
 				parts = append(parts, renamedText(deferList[i].Call)+"; ")
 			}
 		}
@@ -663,6 +720,14 @@ func (si *stmtInliner) inlineCore(file *ast.File, call *ast.CallExpr, sig *types
 					}
 				}
 			case *ast.DeferStmt:
+				if k, isFlagged := flagged[x]; isFlagged && !inLit {
+					text := flagName(k) + " = true"
+					if sel, ok := x.Call.Fun.(*ast.SelectorExpr); ok {
+						text += "; " + recvName(k) + " = " + renamedText(sel.X)
+					}
+					edits = append(edits, edit{off(x.Pos()), off(x.End()), text + " /* defer replayed at exits */"})
+					return false
+				}
 				if simpleDefers[x] && !inLit {
 					// the statement itself disappears (its call is replayed at the exits); identifiers inside are renamed
 					// where they are replayed, from the renamed text below
@@ -709,6 +774,16 @@ func (si *stmtInliner) inlineCore(file *ast.File, call *ast.CallExpr, sig *types
 		fmt.Fprintf(&b, "var %s %s\n_ = %s\n", resNames[i], tstr(sig.Results().At(i).Type(), qual), resNames[i])
 	}
 	_ = namedRes
+	for _, d := range deferList {
+		k, isFlagged := flagged[d]
+		if !isFlagged {
+			continue
+		}
+		fmt.Fprintf(&b, "var %s bool\n_ = %s\n", flagName(k), flagName(k))
+		if sel, ok := d.Call.Fun.(*ast.SelectorExpr); ok {
+			fmt.Fprintf(&b, "var %s %s\n_ = %s\n", recvName(k), tstr(si.info.TypeOf(sel.X), qual), recvName(k))
+		}
+	}
 	fmt.Fprintf(&b, "%s:\nfor {\n", label)
 	for i, v := range paramVars {
 		name := v.Name()
